@@ -1819,7 +1819,6 @@ class slate_BradleyTerry(BallotGenerator):
             for j1 in np.random.choice(len(seed_ballot_type) - 1, size=num_ballots)
         ]
 
-        odds = (1 - cohesion) / cohesion
         # generate MCMC sample
         for i in range(num_ballots):
             # choose adjacent pair to propose a swap
@@ -1830,9 +1829,17 @@ class slate_BradleyTerry(BallotGenerator):
                 current_ranking[j1] != current_ranking[j2]
                 and current_ranking[j1] == bloc
             ):
-                acceptance_prob = odds
+                acceptance_prob = (
+                    min(1, (1 - cohesion) / cohesion) if cohesion > 0 else 1
+                )
 
-            # if swap increases number of voters bloc above opposing or swaps two of same bloc
+            # if swap increases number of voters bloc above opposing bloc
+            elif current_ranking[j1] != current_ranking[j2]:
+                acceptance_prob = (
+                    min(1, cohesion / (1 - cohesion)) if cohesion < 1 else 1
+                )
+
+            # if swap exchanges two of the same bloc
             else:
                 acceptance_prob = 1
 
